@@ -43,6 +43,7 @@ def gen_tree(rng, root):
     used_names = set()
     t.depth = 0
     t.double = False
+    t.refs = []
 
     def body_lines(n):
         out = []
@@ -120,6 +121,7 @@ def gen_tree(rng, root):
                     written = os.path.join(os.path.dirname(written), name) if os.path.dirname(written) else name
             target = os.path.normpath(target)
             used_names.add(os.path.basename(target))
+            t.refs.append((written, target))
             style = rng.randrange(5)
             inc_line = {0: 'include %s', 1: 'include "%s"', 2: "include '%s'", 3: 'include %s  # pull it in (here)',
                         4: 'include %s' + rng.choice(['  ', ' ', '\t']) + rng.choice(variants.COMMENTS).replace('%', '%%')}[style] % written
@@ -144,7 +146,15 @@ def gen_tree(rng, root):
 
 
 def write_decoys(t):
-    """a search path is ordered: a file of the same name in a *later* -i directory is never the one that is spliced in"""
+    """a search path is ordered: a file of the same name in a *later* -i directory is never the one that is spliced in; and a
+    *directory* of that name in an earlier one is not an include file at all"""
+    for k, (written, target) in enumerate(t.refs):
+        for d in t.incdirs:
+            cand = os.path.normpath(os.path.join(d, written))
+            if cand == target:
+                break                                   # the file itself is found here: nothing earlier may look like it
+            if k % 2 == 0 and not os.path.lexists(cand) and cand not in t.files:
+                os.makedirs(cand)
     if len(t.incdirs) != 2:
         return 0
     n = 0
